@@ -1,7 +1,7 @@
 """C11 — primitive distance functions: global minimum (structural clauses)."""
 from . import scopes
 from ..core.report import DOMAIN_D
-from ..rules import features, degree, roles, mirror, runmin, unpack
+from ..rules import features, degree, roles, mirror, runmin, unpack, sides, onsegment, ericson, misc2
 
 
 def run(idx, rep, tier):
@@ -19,10 +19,14 @@ def run(idx, rep, tier):
     features.r_clampconvex(idx, rep)
     roles.r_triple(idx, rep)
     runmin.r_runmin(idx, rep, [x.name for x in idx.lib_modules() if x.name.startswith("distance3d.distance")], floor=6)
+    sides.r_sides(idx, rep, [x.name for x in idx.lib_modules() if x.name.startswith("distance3d.distance")], floor=25)
     mirror.r_mirror(idx, rep)
     mirror.r_casedispatch(idx, rep)
     mirror.r_tournament(idx, rep)
     mirror.r_boxface(idx, rep)
     mods = [x.name for x in idx.lib_modules() if x.name.startswith("distance3d.distance")]
     degree.r_degree(idx, rep, modules=mods, floor=30)
+    onsegment.r_halfsize(idx, rep, [x.name for x in idx.lib_modules() if x.name.startswith("distance3d.distance")], floor=5)
+    ericson.r_ericson(idx, rep)
+    misc2.r_dupcond(idx, rep, [m.name for m in idx.lib_modules()], floor=3)
     unpack.r_unpack(idx, rep, floor=45)
